@@ -275,7 +275,11 @@ def helper_summaries(ctx, rid, names, mode_for_plain, doc=None):
                    "" if ok2 else "not-owned alternatives: %s" % [(a["data"], a["st"]) for a in other],
                    fn=f.label, inst=f.qname)
             la = eng.locks(f)
-            kinds = [ev[3] for ev in la.acquire_events]
+            # an acquisition made by calling the sibling timed helper (the `_for` form turning its duration into a deadline for
+            # the `_until` form) is as timed as that helper - which is judged itself
+            kinds = ["timed" if (len(ev) > 4 and ev[4] is not None and ev[4]["k"] == "CallExpr" and
+                                 re.match(r"^gmlc::libguarded::try_lock_(shared_)?handle_(for|until)$", callee_fq(ev[4]))) else ev[3]
+                     for ev in la.acquire_events]
             want = "try" if nm.endswith("handle") else "timed"
             ok3 = bool(kinds) and all(k == want for k in kinds)
             if not ok3 and want == "timed" and kinds and all(k in ("timed", "try") for k in kinds):
@@ -292,7 +296,39 @@ def helper_summaries(ctx, rid, names, mode_for_plain, doc=None):
                                         if x["k"] == "CallExpr" and (x.get("callee") or {}).get("name") == "now":
                                             return True
                     return False
-                ok3 = all(ev[3] == "timed" or polled(ev) for ev in la.acquire_events)
+                in_loop = [ev for ev in la.acquire_events if ev[3] == "try" and polled(ev)]
+                # (the first attempt may sit in front of the loop: `lock_type l(m, std::try_to_lock); while (!l.owns_lock() ...)`)
+                ok3 = all(ev[3] == "timed" or polled(ev) or (in_loop and f.dominates(tuple(ev[0]), tuple(in_loop[0][0])))
+                          for ev in la.acquire_events)
+                if ok3 and in_loop:
+                    # between two attempts the poller sleeps: never past the deadline
+                    last_ = "p:" + f.params[-1]["name"]
+                    for _h, body in f.loops():
+                        for b in body:
+                            for e_ in f.blocks[b].elems:
+                                if e_["k"] != "S":
+                                    continue
+                                x = f.stmts[e_["s"]]
+                                if x["k"] != "CallExpr" or callee_fq(x) not in ("std::this_thread::sleep_for", "std::this_thread::sleep_until") or not x["args"]:
+                                    continue
+                                a0 = f.s(x["args"][0])
+                                names = {path(f, d) for d in [a0] + list(f.descendants(a0)) if d["k"] == "DeclRefExpr"}
+                                if callee_fq(x).endswith("sleep_until"):
+                                    okp = last_ in names
+                                else:
+                                    okp = False
+                                    for pb, pblk in f.blocks.items():
+                                        if pblk.term and pblk.term.get("cond") and len(pblk.succs) == 2 and \
+                                                any(s_ is not None and f.dominates_block(s_, b) and len(f.blocks[s_].preds) == 1 for s_ in pblk.succs):
+                                            cn = {path(f, d) for d in f.descendants(f.s(pblk.term["cond"])) if d["k"] == "DeclRefExpr"}
+                                            if last_ in cn and (names & cn):
+                                                okp = True
+                                    # or the amount itself is a minimum with the time left
+                                    if any(d["k"] == "CallExpr" and callee_fq(d) == "std::min" for d in [a0] + list(f.descendants(a0))) and last_ in names:
+                                        okp = True
+                                ctx.ob(rid, okp, f.loc(x), "%s: a pause between two attempts never extends past the caller's deadline" % nm,
+                                       "" if okp else "the pause is not compared with (or cut to) the time that is left: the call can return "
+                                       "long after the time it was given", fn=f.label, inst=f.qname)
             ctx.ob(rid, ok3, site, "%s: the lock is taken with the %s constructor only (never blocks beyond the given time)"
                    % (nm, "try_to_lock" if want == "try" else "duration/time-point"),
                    "" if ok3 else "acquisition kinds: %s" % kinds, fn=f.label, inst=f.qname)
@@ -322,6 +358,15 @@ def _timed_argument_unchanged(ctx, rid, f):
             sites.append((st, f.s(st["args"][2])))
     for st, a in sites:
         ok = path(f, a) == last
+        au = unwrap(f, a)
+        while au is not None and au["k"] in CTORS and len(au.get("args", [])) == 1:
+            au = unwrap(f, f.s(au["args"][0]))
+        if not ok and au is not None and au["k"] in ("BinaryOperator", "CXXOperatorCallExpr") and au.get("op") == "+":
+            # the duration turned into a deadline for the `_until` form: <clock>::now() + d
+            ops_ = f.children(au) if au["k"] == "BinaryOperator" else [f.s(x) for x in au["args"]]
+            ps_ = [path(f, o) for o in ops_]
+            nows = [o for o in ops_ if any(d["k"] == "CallExpr" and (d.get("callee") or {}).get("name") == "now" for d in [unwrap(f, o)] + list(f.descendants(o)) if d is not None)]
+            ok = last in ps_ and len(nows) == 1
         ctx.ob(rid, ok, f.loc(st), "%s hands its own time argument to the timed acquisition" % f.name,
                "" if ok else "the acquisition waits for %s, not for the caller's %s: the wait can end long before or long after "
                "the time that was asked for" % (path(f, a) or "a computed value", last[2:]), fn=f.label, inst=f.qname)
